@@ -71,6 +71,14 @@ Proof.
 Qed.
 Print Assumptions C15_ristretto_curve_arithmetic.
 
+(* RFC 9496 equality (the backend's PartialEq) is exactly equality of curve points modulo the four 4-torsion points
+   (0, +-1), (+-i, 0): equal ristretto elements are the same coset, different cosets never compare equal *)
+Theorem C15_ristretto_equality_is_coset_equality : forall (K : Kernel) P Q, valid P -> valid Q ->
+  (pt_eqb K P Q = true <->
+   tors4 Fp f0 f1 fo iF (Edwards.eadd Fp f1 fa fm fs fd dF (aff P) (Edwards.eneg Fp fo (aff Q)))).
+Proof. exact pt_eqb_iff. Qed.
+Print Assumptions C15_ristretto_equality_is_coset_equality.
+
 Theorem C15_edwards_group_law :
   let onc := Edwards.onc Fp f1 fa fm fs dF in
   let add := Edwards.eadd Fp f1 fa fm fs fd dF in
